@@ -1526,6 +1526,10 @@ func apiParseCorpus() ([]string, Config) {
 	paths = append(paths, ``, ` `, `$.`, `$..`, `$[`, `$[]`, `$['a`, `$["a"`, `$[?(`, `$[?()]`, `$[?(@.a ==)]`, `$[(1+1)]`, `$[(]`, `$.a.b(`, `$.a.nofunc()`, `$.é[`, `$.\u00e9`, "$.\xff", "$.\xff[", "\xff$", "$.a\xc3.\xff..", "$['\xff\xfe']]", "$.\xff\xff\xff[a", "$[\x00]", `$[99999999999999999999]`, `$[1:99999999999999999999]`,
 		`$[?(@.a == 99999999999999999999999999999999999999999999999999999999999999999999999999999999999999999999999999999999999e999999)]`, `$[?(@.a =~ /[/)]`, `$['\ud800']`, `$['\z']`, `$["\z"]`,
 		`$[?(@.a.g().g() == 1)]`, `$[?($.g().g())]`, `$.a.g().g()`, `$[?(@.a == @.b)]`, `$[?(@.* == 1)]`, `$[?(@.a && (@.b || !@.c))]`, `$[?(((@.a)))]`, `$[?((@.a) == 1)]`, `@.a`, `a`, `['a']`, `..a`, `$.*.*..*[*][*,*]`, `$[0,1:2,*]`, `$[ 0 , 1 ]`, `$[?( @.a==1 )]`)
+	// regular-expression literals: escaped delimiter and escaped backslash in every position
+	for _, re := range []string{`a\/b`, `ab\\`, `^C:\/tmp\\`, `\/\\`, `\\\/`, `\/`, `\\`, `\/\/`, `a\\\/b\\`, `[\/]`, `\d+\/\\$`, `(?i)a\/`, `\\\\`} {
+		paths = append(paths, `$[?(@.a=~/`+re+`/)]`, `$[?(@.a =~ /`+re+`/ && @.b)]`)
+	}
 	// character-level mutations
 	seedPaths := []string{`$.a[?(@.b == 'c' && $.d > 1)].e.f()`, `$..['a','b'][0:2:1].g()`, `$[?(!@.a || 1 <= @.b)]`}
 	alphabet := []rune("$@.[]()'\"?*!=<>&|,: -+0a\\/~é\x00")
@@ -3095,7 +3099,7 @@ func TestVerifReplay(t *testing.T) {
 		apiCheckTotal(t, docs, names)
 	}
 	switch rec.Property {
-	case "C01", "C07", "C08", "C12", "C14", "C15":
+	case "C01", "C07", "C08", "C12", "C14", "C15", "C03":
 		// these lean on the assumed well-formedness of the parsed tree (links, flags, texts): the tree monitor runs with them
 		if !t.Failed() {
 			apiCheckTrees(t)
